@@ -11,7 +11,7 @@ open Rio.Consts
 
 -- unfold the `let r := t.readByte` variables that `fun_induction` leaves in the context
 set_option hygiene false in
-local macro "zd" : tactic => `(tactic| ((try simp only [r2] at *); (try simp only [r] at *)))
+local macro "zd" : tactic => `(tactic| (try simp +zetaDelta only at *))
 
 local macro "crfl" : tactic => `(tactic| first | (simp [core]; done) | rfl)
 
@@ -340,14 +340,254 @@ theorem script_letters : ∀ c ∈ htmlScript, 32 ≤ c := by decide
 theorem scriptGo_adv (st : SS) (b t : Tokenizer) (hb : Adv b t) (hk : b.rawE + st.need ≤ t.rawE)
     (hs : b.rawTag = htmlScript) : Adv b (scriptGo st t) := by
   fun_induction scriptGo st t
-  case case2 =>
-    simp +zetaDelta only at *
+  all_goals (try simp +zetaDelta only at *)
+  -- edges that start with `read_byte`
+  all_goals first
+    | exact hb.trans (readByte_adv hb.ok)
+    | (apply_assumption
+       · first
+         | exact hb.trans (readByte_adv hb.ok)
+         | exact hb.trans (read_unread_adv hb.ok (by assumption))
+       · simp only [SS.need] at *
+         first
+         | (have := readByte_succ (by assumption); omega)
+         | (have := (read_unread_adv hb.ok (by assumption)).mono; omega))
+    | skip
+  -- read_script_data_end_tag_open / read_script_data_escaped_end_tag_open
+  case case8 | case33 =>
+    exact (readRawEndTag_adv b _ hb (by simpa [SS.need] using hk) (by rw [hb.rawTag, hs]; exact script_letters)).1
+  case case9 | case34 =>
     apply_assumption
-    · exact hb.trans (readByte_adv hb.ok)
-    · simp only [SS.need] at *
-      have := readByte_succ (by assumption)
-      omega
-  all_goals sorry
+    · exact (readRawEndTag_adv b _ hb (by simpa [SS.need] using hk) (by rw [hb.rawTag, hs]; exact script_letters)).1
+    · exact (readRawEndTag_adv b _ hb (by simpa [SS.need] using hk) (by rw [hb.rawTag, hs]; exact script_letters)).1.mono
+  -- read_script_data_double_escape_start
+  case case35 => exact hb.trans (dblEscLoop_adv _ _ hb.ok)
+  case case36 =>
+    apply_assumption
+    · exact hb.trans (dblEscLoop_adv _ _ hb.ok)
+    · exact (hb.trans (dblEscLoop_adv _ _ hb.ok)).mono
+  case case37 =>
+    exact (hb.trans (dblEscLoop_adv _ _ hb.ok)).trans (readByte_adv (dblEscLoop_adv _ _ hb.ok).ok)
+  case case38 =>
+    apply_assumption
+    · exact (hb.trans (dblEscLoop_adv _ _ hb.ok)).trans (readByte_adv (dblEscLoop_adv _ _ hb.ok).ok)
+    · exact ((hb.trans (dblEscLoop_adv _ _ hb.ok)).trans (readByte_adv (dblEscLoop_adv _ _ hb.ok).ok)).mono
+  case case39 =>
+    apply_assumption
+    · exact (hb.trans (dblEscLoop_adv _ _ hb.ok)).trans (read_unread_adv (dblEscLoop_adv _ _ hb.ok).ok (by assumption))
+    · exact ((hb.trans (dblEscLoop_adv _ _ hb.ok)).trans (read_unread_adv (dblEscLoop_adv _ _ hb.ok).ok (by assumption))).mono
+  -- read_script_data_double_escaped_end
+  case case57 =>
+    exact (readRawEndTag_adv b _ hb (by simpa [SS.need] using hk) (by rw [hb.rawTag, hs]; exact script_letters)).1
+  case case58 =>
+    apply_assumption
+    · exact (readRawEndTag_adv b _ hb (by simpa [SS.need] using hk) (by rw [hb.rawTag, hs]; exact script_letters)).1
+    · exact (readRawEndTag_adv b _ hb (by simpa [SS.need] using hk) (by rw [hb.rawTag, hs]; exact script_letters)).1.mono
+  case case56 =>
+    rename_i t r htrue ih
+    have hr := readRawEndTag_adv b t hb (by simpa [SS.need] using hk) (by rw [hb.rawTag, hs]; exact script_letters)
+    have h2 := hr.2.2 htrue
+    have hlen : t.rawTag.length = 6 := by rw [hb.rawTag, hs]; rfl
+    have hadv : Adv b (t.readRawEndTag.1.addRawE htmlScriptEndTagLen) := by
+      have h1 := hr.1
+      refine ⟨h1.buf, h1.rawS, ?_, ⟨?_, h1.ok.panic, h1.ok.hang, h1.ok.utf8⟩, h1.rawTag, h1.cdata⟩
+      · have := h1.mono; simp only [addRawE]; omega
+      · have := readRawEndTag_buf t
+        simp only [addRawE, htmlScriptEndTagLen, this]; omega
+    exact ih hadv hadv.mono
+
+theorem rawTextGo_adv (t : Tokenizer) (h : Ok t) (htag : ∀ c ∈ t.rawTag, 32 ≤ c) : Adv t (rawTextGo t) := by
+  fun_induction rawTextGo t
+  all_goals (try simp +zetaDelta only at *)
+  case case1 => exact readByte_adv h
+  case case2 ih =>
+    have a1 := readByte_adv h
+    exact a1.trans (ih a1.ok (by rw [a1.rawTag]; exact htag))
+  case case3 => exact (readByte_adv h).trans (readByte_adv (readByte_adv h).ok)
+  case case4 ih =>
+    have a1 := readByte_adv h
+    have a2 := readByte_adv a1.ok
+    exact (a1.trans a2).trans (ih a2.ok (by rw [a2.rawTag, a1.rawTag]; exact htag))
+  case case5 t _ herr _ _ herr2 _ _ _ =>
+    have a1 := readByte_adv h
+    have a2 := readByte_adv a1.ok
+    have e1 := readByte_succ herr
+    have e2 := readByte_succ herr2
+    exact (readRawEndTag_adv t _ (a1.trans a2) (by omega) (by rw [a2.rawTag, a1.rawTag]; exact htag)).1
+  case case6 t _ herr _ _ herr2 _ _ _ ih =>
+    have a1 := readByte_adv h
+    have a2 := readByte_adv a1.ok
+    have e1 := readByte_succ herr
+    have e2 := readByte_succ herr2
+    have a3 := (readRawEndTag_adv t _ (a1.trans a2) (by omega) (by rw [a2.rawTag, a1.rawTag]; exact htag)).1
+    exact a3.trans (ih a3.ok (by rw [a3.rawTag]; exact htag))
+
+/-! ### tags -/
+
+theorem tagNameGo_adv (t : Tokenizer) (h : Ok t) : Adv t (tagNameGo t) := by
+  fun_induction tagNameGo t
+  all_goals (try simp +zetaDelta only at *)
+  case case1 => exact (readByte_adv h).congr (by crfl)
+  case case2 => exact setDataEndBack_adv 1 (readByte_adv h) (readByte_pos (by assumption))
+  case case3 => exact (read_unread_adv h (by assumption)).congr (by crfl)
+  case case4 ih => exact (readByte_adv h).trans (ih (readByte_adv h).ok)
+
+theorem readTagName_adv (t : Tokenizer) (h : Ok t) (h1 : 1 ≤ t.rawE) : Adv t (readTagName t) := by
+  unfold readTagName
+  split
+  · omega
+  · have h0 : Adv t { t with dataS := t.rawE - 1 } := (Adv.refl h).congr (by crfl)
+    exact h0.trans (tagNameGo_adv _ h0.ok)
+
+theorem attrKeyGo_adv (t : Tokenizer) (h : Ok t) : Adv t (attrKeyGo t) := by
+  fun_induction attrKeyGo t
+  all_goals (try simp +zetaDelta only at *)
+  case case1 => exact (readByte_adv h).congr (by crfl)
+  case case2 => have := readByte_pos (t := _) (by assumption); omega
+  case case3 => exact (readByte_adv h).congr (by crfl)
+  case case4 => exact (read_unread_adv h (by assumption)).congr (by crfl)
+  case case5 ih => exact (readByte_adv h).trans (ih (readByte_adv h).ok)
+
+theorem readTagAttrKey_adv (t : Tokenizer) (h : Ok t) : Adv t (readTagAttrKey t) := by
+  unfold readTagAttrKey
+  have h0 : Adv t { t with pkS := t.rawE } := (Adv.refl h).congr (by crfl)
+  exact h0.trans (attrKeyGo_adv _ h0.ok)
+
+theorem attrValQuotedGo_adv (t : Tokenizer) (q : Nat) (h : Ok t) : Adv t (attrValQuotedGo t q) := by
+  fun_induction attrValQuotedGo t q
+  all_goals (try simp +zetaDelta only at *)
+  case case1 => exact (readByte_adv h).congr (by crfl)
+  case case2 => have := readByte_pos (t := _) (by assumption); omega
+  case case3 => exact (readByte_adv h).congr (by crfl)
+  case case4 ih => exact (readByte_adv h).trans (ih (readByte_adv h).ok)
+
+theorem attrValUnquotedGo_adv (t : Tokenizer) (h : Ok t) : Adv t (attrValUnquotedGo t) := by
+  fun_induction attrValUnquotedGo t
+  all_goals (try simp +zetaDelta only at *)
+  case case1 => exact (readByte_adv h).congr (by crfl)
+  case case2 => have := readByte_pos (t := _) (by assumption); omega
+  case case3 => exact (readByte_adv h).congr (by crfl)
+  case case4 => exact (read_unread_adv h (by assumption)).congr (by crfl)
+  case case5 ih => exact (readByte_adv h).trans (ih (readByte_adv h).ok)
+
+theorem attrValRest_adv (t : Tokenizer) (h : Ok t) : Adv t (attrValRest t) := by
+  unfold attrValRest
+  simp only
+  have a3 := skipWhiteSpace_adv _ h
+  generalize t.skipWhiteSpace = t2 at *
+  split
+  · exact a3
+  · have a4 := readByte_adv a3.ok
+    split
+    · exact a3.trans a4
+    · rename_i herr2
+      split
+      · exact a3.trans (read_unread_adv a3.ok herr2)
+      · split
+        · have h5 : Adv t { t2.readByte.1 with pvS := t2.readByte.1.rawE } := (a3.trans a4).congr (by crfl)
+          exact h5.trans (attrValQuotedGo_adv _ _ h5.ok)
+        · split
+          · have := readByte_pos herr2; omega
+          · have h5 : Adv t { t2.readByte.1 with pvS := t2.readByte.1.rawE - 1 } := (a3.trans a4).congr (by crfl)
+            exact h5.trans (attrValUnquotedGo_adv _ h5.ok)
+
+theorem readTagAttrVal_adv (t : Tokenizer) (h : Ok t) : Adv t (readTagAttrVal t) := by
+  unfold readTagAttrVal
+  simp only
+  have h0 : Adv t { t with pvS := t.rawE, pvE := t.rawE } := (Adv.refl h).congr (by crfl)
+  generalize ({ t with pvS := t.rawE, pvE := t.rawE } : Tokenizer) = t0 at *
+  have a1 := h0.trans (skipWhiteSpace_adv _ h0.ok)
+  generalize t0.skipWhiteSpace = t1 at *
+  split
+  · exact a1
+  · have a2 := readByte_adv a1.ok
+    split
+    · exact a1.trans a2
+    · rename_i herr
+      split
+      · exact a1.trans (read_unread_adv a1.ok herr)
+      · exact (a1.trans a2).trans (attrValRest_adv _ a2.ok)
+
+theorem readAttr_adv (t : Tokenizer) (save : Bool) (h : Ok t) : Adv t (readAttr t save) := by
+  unfold readAttr
+  simp only
+  have a1 := readTagAttrKey_adv t h
+  have a2 := a1.trans (readTagAttrVal_adv _ a1.ok)
+  generalize t.readTagAttrKey.readTagAttrVal = t2 at *
+  split
+  · have a3 : Adv t { t2 with attrs := t2.attrs.push ⟨t2.pkS, t2.pkE, t2.pvS, t2.pvE⟩ } := a2.congr (by crfl)
+    exact a3.trans (skipWhiteSpace_adv _ a3.ok)
+  · exact a2.trans (skipWhiteSpace_adv _ a2.ok)
+
+/-! ### progress of the attribute loop (the `hang` flag is never set) -/
+
+theorem readByte_of_get {t : Tokenizer} {b : Nat} (h : t.buf[t.rawE]? = some b) :
+    t.readByte = ({ t with rawE := t.rawE + 1 }, b) := by
+  unfold readByte
+  have hlt : t.rawE < t.buf.size := by
+    rcases Nat.lt_or_ge t.rawE t.buf.size with h' | h'
+    · exact h'
+    · simp [Array.getElem?_eq_none h'] at h
+  simp only [hlt, dite_true]
+  simp [Array.getElem?_eq_getElem hlt] at h
+  rw [h]
+
+theorem get_of_readByte {t : Tokenizer} (herr : ¬ t.readByte.1.err = true) :
+    t.buf[t.rawE]? = some t.readByte.2 ∧ t.err = false := by
+  unfold readByte at *
+  split
+  · rename_i hlt
+    simp_all
+  · simp_all
+
+theorem isWs_61 : isWs 61 = false := by decide
+
+theorem attrKeyGo_progress (t : Tokenizer) (b : Nat) (h : Ok t) (herr : t.err = false)
+    (hb : t.buf[t.rawE]? = some b) (h62 : b ≠ 62) :
+    (b ≠ 61 → t.rawE + 1 ≤ (attrKeyGo t).rawE) ∧
+    (b = 61 → (attrKeyGo t).rawE = t.rawE ∧ (attrKeyGo t).err = false ∧ (attrKeyGo t).buf = t.buf) := by
+  rw [attrKeyGo]
+  have hr := readByte_of_get hb
+  have a1 := readByte_adv h
+  rw [hr] at a1 ⊢
+  simp only [herr, Bool.false_eq_true, dite_false]
+  by_cases h1 : (isWs b || b == 47) = true
+  · simp only [h1, if_true]
+    have hne : b ≠ 61 := by
+      intro e; subst e; simp [isWs_61] at h1
+    simp [hne]
+    split <;> simp
+  · simp only [h1]
+    by_cases h2 : (b == 61 || b == 62) = true
+    · simp only [h2, if_true]
+      have he : b = 61 := by
+        simp at h2; omega
+      simp [he, unread, herr]
+    · simp only [h2]
+      have hne : b ≠ 61 := by
+        intro e; subst e; simp at h2
+      simp only [hne, false_implies, and_true]
+      intro _
+      have := (attrKeyGo_adv _ a1.ok).mono
+      simpa using this
+
+theorem skipWhiteSpace_61 (t : Tokenizer) (herr : t.err = false) (hb : t.buf[t.rawE]? = some 61) :
+    t.skipWhiteSpace = (({ t with rawE := t.rawE + 1 } : Tokenizer).unread 1) := by
+  unfold skipWhiteSpace
+  simp only [herr, Bool.false_eq_true, if_false]
+  rw [skipWsGo]
+  rw [readByte_of_get hb]
+  simp [herr, isWs_61]
+
+theorem readTagAttrVal_progress (t : Tokenizer) (h : Ok t) (herr : t.err = false)
+    (hb : t.buf[t.rawE]? = some 61) : t.rawE + 1 ≤ (readTagAttrVal t).rawE := by
+  unfold readTagAttrVal
+  simp only
+  have h0 : Adv t { t with pvS := t.rawE, pvE := t.rawE } := (Adv.refl h).congr (by crfl)
+  rw [skipWhiteSpace_61 _ herr hb]
+  simp only [unread, Nat.le_add_left, if_true, Nat.add_sub_cancel, herr, Bool.false_eq_true, if_false]
+  have hb' : ({ t with pvS := t.rawE, pvE := t.rawE, rawE := t.rawE + 1 - 1 + 1 - 1 } : Tokenizer).buf[t.rawE]? = some 61 := hb
+  sorry
 
 end Tokenizer
 end Rio.Html
